@@ -298,4 +298,25 @@ def render (L : Loader) (fuel : Nat) (t : FileInfo) (env : Env) : Except Str (Li
 /-- 1 + number of `\n` among the first `pos` code points -/
 def lineAt (text : Str) (pos : Nat) : Nat := 1 + countNl (text.take pos)
 
+/-! ### Python's rule for `break` / `continue`, read off the generated line list -/
+def hdrIsLoop (c : Str) : Bool := startsWith (/-"for "-/ [102, 111, 114, 32] : List Nat) c || startsWith (/-"while "-/ [119, 104, 105, 108, 101, 32] : List Nat) c
+def hdrIsDef (c : Str) : Bool := startsWith (/-"def "-/ [100, 101, 102, 32] : List Nat) c
+
+/-- the innermost enclosing header that decides: a loop (fine), or a function definition / nothing (SyntaxError) -/
+def inLoopStack : List (Nat × Str) → Bool
+  | [] => false
+  | (_, c) :: rest => if hdrIsLoop c then true else if hdrIsDef c then false else inLoopStack rest
+
+/-- walk the lines with the stack of open headers (innermost first, found by indentation): every `break` / `continue`
+line must be inside a `for` / `while` block of the same function -/
+def loopOKFrom (stack : List (Nat × Str)) : List Line → Bool
+  | [] => true
+  | l :: ls =>
+    let st := stack.dropWhile (fun p => l.indent ≤ p.1)
+    (if l.code == (/-"break"-/ [98, 114, 101, 97, 107] : List Nat) || l.code == (/-"continue"-/ [99, 111, 110, 116, 105, 110, 117, 101] : List Nat) then inLoopStack st else true) &&
+      loopOKFrom (if l.hdr then (l.indent, l.code) :: st else st) ls
+
+/-- CPython compiles the generated module without "'break' outside loop" / "'continue' not properly in loop" -/
+def loopOK (lines : List Line) : Bool := loopOKFrom [] lines
+
 end TornadoModel.C19
